@@ -85,7 +85,10 @@ func vc02MetaMatches(meta map[string]any, want *vfxTx) string {
 		return fmt.Sprintf("logMessages %v, want prefix %q", logs, wantLog)
 	}
 	if (meta["err"] != nil) != want.Failed {
-		return fmt.Sprintf("err %v, failed=%v", meta["err"], want.Failed)
+		return fmt.Sprintf("err %v, failed=%v (recorded error: %s)", meta["err"], want.Failed, want.ErrName)
+	}
+	if want.Failed && !strings.Contains(fmt.Sprint(meta["err"]), want.ErrName) {
+		return fmt.Sprintf("err %v does not name the recorded error %s", meta["err"], want.ErrName)
 	}
 	return ""
 }
@@ -107,8 +110,10 @@ func TestVerif_C02(t *testing.T) {
 	e0.NumSlots, e0.SkipPercent = 14, 20
 	e1 := vfxDefaultSpec("c02e1", 1, seed+1)
 	e1.NumSlots, e1.FrameSize, e1.FanOut, e1.MaxTx, e1.ZeroTimes = 16, 70, 2, 4, true
+	e1.EdgeTimes, e1.ShortSigs = true, true
 	e2 := vfxDefaultSpec("c02e2", 2, seed+2)
 	e2.NumSlots, e2.FrameSize, e2.FanOut, e2.BigObjects, e2.MaxEntries, e2.MultiSig, e2.Boundary = 14, 90, 5, true, 4, true, true
+	e2.ShuffleNext = true
 	// transactions without the optional position index (archives written before the field existed); blocks with
 	// more than 12 transactions, so that an unstable sort on the absent positions would show
 	eN := vfxDefaultSpec("c02noidx", 5, seed+4)
